@@ -503,7 +503,7 @@ func ruleInvalidate(c *Ctx) {
 	p := c.P
 	fAccess := p.Field("server.Subscription.access")
 	fState := p.Field("server.Subscription.state")
-	fFlags := p.Field("server.Subscription.flags")
+	fFlagSet := p.flagFields("server.Subscription.flags")
 	loadAccess := p.Method("server.Subscription.loadAccess")
 	queueEvents := p.Method("server.Subscription.queueEvents")
 	unqueueEvents := p.Method("server.Subscription.unqueueEvents")
@@ -524,8 +524,10 @@ func ruleInvalidate(c *Ctx) {
 				}
 				return []Ev{{Kind: "access=set"}}
 			}
-			if _, ok := isStoreToT(t, fr, in, fFlags); ok {
-				return []Ev{{Kind: "flags"}}
+			for _, fFlags := range fFlagSet {
+				if _, ok := isStoreToT(t, fr, in, fFlags); ok {
+					return []Ev{{Kind: "flags"}}
+				}
 			}
 			if _, ok := isCallTo(in, loadAccess); ok {
 				return []Ev{{Kind: "loadAccess"}}
